@@ -309,6 +309,10 @@ func (ex *Exec) pick(n int, costs []uint8, sig uint64, kind uint8, desc func(i i
 		}
 	} else {
 		ex.fresh++
+		if !ex.pruned && ex.x != nil && ex.x.NShards > 1 && i >= ex.x.SplitDepth && !ex.x.owns(ex.trace) {
+			// another shard explores everything below this depth-SplitDepth prefix
+			ex.pruned = true
+		}
 		if !ex.pruned && ex.x != nil && ex.x.prune {
 			k := ex.key(kind, sig)
 			rem := 1 << 30
